@@ -130,4 +130,20 @@ def legSpec (pk : PairKind) (r : Roles) (a : Nat) (w : TW) : Option TW :=
     | some w3 => bankSend w3 r.mod r.sender a
 
 
+/-! ## histories of token-leg calls by arbitrary callers -/
+
+structure TokOp where
+  pk : PairKind
+  caller : Addr
+  amount : Nat
+
+/-- one `crossChain` / `increaseBridgeFee` with a token, issued by `o.caller` (the precompile, the erc20 module and the token
+contract are `pre`, `mod`, `tokC`); a call whose handler returns an error leaves the world as it was (C09) -/
+def applyTok (pre mod tokC : Addr) (w : TW) (o : TokOp) : TW :=
+  match runOps o.pk ⟨o.caller, pre, mod, tokC⟩ o.amount erc20Leg w with
+  | some (some w') => w'
+  | _ => w
+
+def runTokH (pre mod tokC : Addr) (ops : List TokOp) (w : TW) : TW := ops.foldl (applyTok pre mod tokC) w
+
 end FxVerif.Model.C10Tok
